@@ -31,7 +31,7 @@ func (v *verifFS) OpenFile(string, experimentalsys.Oflag, fs.FileMode) (experime
 }
 
 // VerifC16_Descriptors: a reference model of the descriptor table (map fd -> file, lowest-free allocation) run against
-// FSContext.OpenFile / CloseFile / Renumber for an arbitrary history of 3 operations with arbitrary descriptors.
+// FSContext.OpenFile / CloseFile / Renumber for every history of 0..2 opens followed by two arbitrary operations with arbitrary descriptors (-1..5).
 //verif:opts maxpaths=60000 wall=900
 func VerifC16_Descriptors() {
 	vfs := &verifFS{}
@@ -41,14 +41,20 @@ func VerifC16_Descriptors() {
 	}
 	c := ctx.FS()
 	// ghost: fds 0..2 stdio, 3 preopen; model[fd] = file id (>= 0) for files opened through OpenFile
-	const maxFD = 8
+	const maxFD = 6
 	var model [maxFD]int
 	for i := range model {
 		model[i] = -1
 	}
 	used := func(fd int32) bool { return fd >= 0 && (fd < 4 || (fd < maxFD && model[fd] >= 0)) }
-	for step := 0; step < 3; step++ {
-		switch verifrt.Choose("op", 3) {
+	// history: 0..2 opens (so that descriptors 4 and 5 may be in use), then two arbitrary operations
+	pre := verifrt.Choose("opened", 3)
+	for step := 0; step < pre+2; step++ {
+		op := 0
+		if step >= pre {
+			op = verifrt.Choose("op", 3)
+		}
+		switch op {
 		case 0: // open: lowest free descriptor
 			fd, errno := c.OpenFile(vfs, "f", 0, 0)
 			want := int32(-1)
